@@ -72,8 +72,11 @@ def formula_check(res, model: Model, qual: str, ref_src: str, what: str, opaque:
             raise Unreadable("path budget exceeded after summarising " + ", ".join(opaque[-3:]))
         p2 = ev2._function_paths_ctx(rf, align_params(f, rf), None, 0, sc)
     except Unreadable as e:
-        raise AnalysisError(f"{res.prop}: {qual} is outside the evaluator's language ({e}); formula clause '{what}' "
+        # nothing is decided about this clause (exit 2 at the end) - but the remaining rules still run, so that a
+        # violation they find in the same change is reported and not lost behind the refusal
+        res.refusals.append(f"{res.prop}: {qual} is outside the evaluator's language ({str(e)[:300]}); formula clause '{what}' "
                             f"cannot be decided")
+        return None
     except ZeroDivisionError as e:
         raise AnalysisError(f"{res.prop}: {qual}: {e}")
     if ignore_raises:
@@ -260,8 +263,9 @@ def effects_check(res, model: Model, qual: str, ref_src: str, what: str, effect_
             raise Unreadable("path budget exceeded after summarising " + ", ".join(opaque[-3:]))
         p2 = e2.effect_paths(rf, effect_calls, sc, args=align_params(f, rf))
     except Unreadable as e:
-        raise AnalysisError(f"{res.prop}: {qual} is outside the evaluator's language ({e}); ledger clause '{what}' "
+        res.refusals.append(f"{res.prop}: {qual} is outside the evaluator's language ({str(e)[:300]}); ledger clause '{what}' "
                             f"cannot be decided")
+        return None
     global _IDEM_NAMES
     _IDEM_NAMES = idempotent_resets(model)
     s1 = _sig(p1, ignore_kinds, ignore_calls, keep_raise_effects, ordered, store_fields)
